@@ -95,7 +95,7 @@ def panicked {F : Type} (items : List (Item F)) : Bool :=
 
 /-- **THE SWITCH (D3).**  `receiveGauge` compares `m.Timestamp > g.Timestamp` on the pinned tree
 (`false`); the repair `>=` is `true` (`handoff/C05-fix-1.patch`). -/
-def gaugeGe : Bool := (Gsd.Facts.ops_receiveGauge == [">="])   -- read from metric_map.go on every run (repaired by b6cfd17; `>` was defect D3)
+def gaugeGe : Bool := (Gsd.Facts.rel_receiveGauge != ">")   -- direction read from metric_map.go on every run (`>` was defect D3, repaired by b6cfd17; "?" keeps ≥)
 
 /-- `receiveGauge` for one key: `ge = false` is the code's `>`, `ge = true` the repaired `>=` -/
 def receiveGauge {κ V : Type} [DecidableEq κ] (ge : Bool) (mm : AList κ (Int × V)) (k : κ) (ts : Int) (v : V) : AList κ (Int × V) :=
